@@ -94,7 +94,7 @@ def main():
         "hooks": {
             "guard": "verif",
             "enable": "checks copy /repo's working tree to a scratch directory, copy the in-package observer files of /verif/graft (each starts with //go:build verif) into the copy, optionally run the vinstr source instrumenter on the copy, and build the drivers with -tags verif; nothing guarded is committed to /repo",
-            "baseline_off_cmd": "cd /repo && GOFLAGS=-mod=mod GOPROXY=off GOSUMDB=off GOTOOLCHAIN=local go test -vet=off -count=1 -timeout 25m ./...",
+            "baseline_off_cmd": "cd /repo && GOFLAGS=-mod=mod GOPROXY=off GOSUMDB=off GOTOOLCHAIN=local go test -json -vet=off -count=1 -timeout 25m ./...",
             "source_commits": [],
             "add_only": True,
         },
